@@ -271,6 +271,34 @@ def instantiation_sites(repo, uni, ci):
                     mod is ci.module and isinstance(ref, ast.Name)
                     and ref.id == ci.qualname.split('.')[-1]):
                 continue
+            # functools.partial(Cls, ...) bound to a local: instances are
+            # made where that local is called, not where it is built
+            par = getattr(node, '_parent', None)
+            if not isinstance(node, ast.Call) and isinstance(
+                    par, ast.Call) and repo.resolve(
+                        mod, par.func) == 'functools.partial':
+                asg = getattr(par, '_parent', None)
+                scope = model.enclosing(par, (ast.FunctionDef,
+                                              ast.AsyncFunctionDef))
+                if isinstance(asg, ast.Assign) and len(
+                        asg.targets) == 1 and isinstance(
+                        asg.targets[0], ast.Name) and scope is not None:
+                    nm = asg.targets[0].id
+                    uses = [c for c in ast.walk(scope)
+                            if isinstance(c, ast.Call) and isinstance(
+                                c.func, ast.Name) and c.func.id == nm]
+                    loads = [x for x in ast.walk(scope)
+                             if isinstance(x, ast.Name) and x.id == nm and
+                             isinstance(x.ctx, ast.Load)]
+                    if uses and len(uses) == len(loads):
+                        for u in uses:
+                            out.append((mod, u, _where(repo, uni, mod, u)))
+                        continue
+            out.append((mod, node, _where(repo, uni, mod, node)))
+    return out
+
+
+def _where(repo, uni, mod, node):
             f = model.enclosing(node, (ast.FunctionDef,
                                        ast.AsyncFunctionDef))
             in_default = False
@@ -305,8 +333,7 @@ def instantiation_sites(repo, uni, ci):
                 where = 'construction' if role in (
                     'construction', 'register', 'hostapi', 'cli',
                     'parse') else 'evaluation'
-            out.append((mod, node, where))
-    return out
+            return where
 
 
 def split_stateful(repo, uni, stateful):
